@@ -46,12 +46,17 @@ pub enum Case {
     /// just executed a different case of the same world: hidden state (statics, thread-locals, caches keyed
     /// too coarsely) must not carry over from one simulation to the next
     HistoryRepeat { inner: Box<cases::Case>, before: Box<cases::Case>, seed: u64, hash_seed: u64 },
+    /// a whole-network batch operation (`Network::set_speed_set_for_train_type`) on a chain of `n_links` links
+    /// of which those at `missing` carry no speed set for the requested train type (the operation must fail
+    /// there): executed outside any pool and, twice each, inside private rayon pools of `threads` threads.
+    /// Result, error text and the state the network is left in must not depend on the worker count.
+    NetBatch { n_links: usize, missing: Vec<usize>, type_bits: u64, threads: Vec<usize>, hash_seed: u64 },
 }
 
 impl Case {
     pub fn hash_seed(&self) -> u64 {
         match self {
-            Case::Schedules { hash_seed, .. } | Case::HashRepeat { hash_seed, .. } | Case::Rayon { hash_seed, .. } | Case::PoolRepeat { hash_seed, .. } | Case::HistoryRepeat { hash_seed, .. } => *hash_seed,
+            Case::Schedules { hash_seed, .. } | Case::HashRepeat { hash_seed, .. } | Case::Rayon { hash_seed, .. } | Case::PoolRepeat { hash_seed, .. } | Case::HistoryRepeat { hash_seed, .. } | Case::NetBatch { hash_seed, .. } => *hash_seed,
         }
     }
     pub fn size(&self) -> usize {
@@ -60,6 +65,7 @@ impl Case {
             Case::HashRepeat { inner, .. } | Case::PoolRepeat { inner, .. } => inner.size(),
             Case::HistoryRepeat { inner, before, .. } => inner.size() + before.size(),
             Case::Rayon { sims, threads, .. } => sims.len() * 4 + threads,
+            Case::NetBatch { n_links, missing, threads, .. } => n_links / 16 + missing.len() * 4 + threads.len(),
         }
     }
 }
@@ -88,8 +94,41 @@ fn gen_sims(rng: &mut Rng, max_n: usize) -> Vec<SimSpec> {
         .collect()
 }
 
+fn gen_net_batch(rng: &mut Rng) -> Case {
+    // sizes log-uniform between 40 and 40 000 links
+    let n_links = (40.0 * (1000.0f64).powf(rng.f())) as usize;
+    let mut missing: Vec<usize> = vec![];
+    match rng.below(5) {
+        0 => {}
+        1 => missing.push(rng.usize(1, n_links)),
+        _ => {
+            // two failing links either side of a point at which a divide-and-conquer executor would split the
+            // sequence (halves, quarters, eighths), plus sometimes a few anywhere
+            let parts = *rng.pick(&[2usize, 2, 4, 4, 8, 16]);
+            let at = (n_links * rng.usize(1, parts - 1) / parts).max(2);
+            let before = at.saturating_sub(rng.usize(1, (n_links / 64).clamp(1, 40))).max(1);
+            let after = (at + rng.usize(0, (n_links / 64).clamp(1, 40))).min(n_links);
+            missing.push(before);
+            if after != before {
+                missing.push(after);
+            }
+            for _ in 0..rng.below(3) {
+                missing.push(rng.usize(1, n_links));
+            }
+            missing.sort();
+            missing.dedup();
+        }
+    }
+    let mut threads = vec![1, *rng.pick(&[2, 2, 3, 4]), *rng.pick(&[5, 8, 16])];
+    if rng.chance(0.3) {
+        threads.push(*rng.pick(&[6, 7, 12]));
+    }
+    Case::NetBatch { n_links, missing, type_bits: rng.next(), threads, hash_seed: rng.next() }
+}
+
 pub fn generate(rng: &mut Rng, _focus: &str, thorough: bool) -> Case {
-    match rng.below(14) {
+    match rng.below(15) {
+        14 => gen_net_batch(rng),
         12..=13 => {
             let inner_prop = *rng.pick(&["C10", "C10", "C14", "C03", "C04", "C02"]);
             let inner = cases::generate_world(inner_prop, "C18", rng, thorough);
@@ -350,6 +389,53 @@ pub fn execute(case: &Case, ctx: &mut Ctx) {
             }
             ctx.nontrivial = sims.len() >= 2 && *threads >= 2;
         }
+        Case::NetBatch { n_links, missing, type_bits, threads, .. } => {
+            ctx.class.push(format!("thr:netbatch:n{}:m{}:{:?}", (*n_links as f64).log2() as u32, missing.len().min(3), threads));
+            ctx.layer = "net-batch";
+            let tt = crate::trk::type_from_bits(*type_bits);
+            let net = net_batch_network(*n_links, missing, tt);
+            let run = |pool: Option<usize>| -> Option<(String, u64)> {
+                let mut n = net.clone();
+                let r = match pool {
+                    None => n.set_speed_set_for_train_type(tt),
+                    Some(k) => rayon::ThreadPoolBuilder::new().num_threads(k).build().ok()?.install(|| n.set_speed_set_for_train_type(tt)),
+                };
+                let mut h = crate::rng::Trace::default();
+                for l in n.0.iter() {
+                    h.u(l.speed_set.is_some() as u64 * 2 + l.speed_sets.len() as u64);
+                    if let Some(ss) = &l.speed_set {
+                        h.u(ss.speed_limits.first().map(|x| x.speed.value.to_bits()).unwrap_or(7));
+                    }
+                }
+                Some((match r { Ok(()) => "Ok".to_string(), Err(e) => format!("Err: {}", first(&e)) }, h.0))
+            };
+            let Some(plain) = run(None) else { return };
+            ctx.trace.u(plain.1);
+            ctx.hit("stat.net_batches");
+            // what the statement fixes without reference to any other execution: success iff nothing is missing;
+            // a failure names one of the links that cannot be converted
+            let named_ok = |txt: &str| missing.iter().any(|m| txt.contains(&format!("`idx_curr`: {m}:")) || txt.ends_with(&format!("`idx_curr`: {m}")) || txt.contains(&format!("`idx_curr`: {m} ")));
+            if missing.is_empty() != (plain.0 == "Ok") {
+                ctx.violate("C18", "net_batch", "whole-network operation fails iff some link cannot be converted", format!("{} links, missing {:?}: {}", n_links, missing, plain.0));
+            } else if plain.0 != "Ok" && !named_ok(&plain.0) {
+                ctx.violate("C18", "net_batch", "error names a failing element", format!("{} links, missing {:?}: {}", n_links, missing, plain.0));
+            }
+            'outer: for k in threads {
+                for rep in 0..2 {
+                    let Some(r) = run(Some(*k)) else { continue };
+                    ctx.hit("fault.sched.pool_size");
+                    ctx.hit("stat.pool_runs");
+                    if r != plain {
+                        ctx.violate("C18", "repeat", "same inputs, different thread-pool size => identical outputs", format!("Network::set_speed_set_for_train_type on {} links (no {:?} set on links {:?}): outside any pool -> {} / state {:x}; inside a pool of {k} thread(s), execution {rep} -> {} / state {:x}", n_links, tt, missing, plain.0, plain.1, r.0, r.1));
+                        break 'outer;
+                    }
+                }
+            }
+            ctx.nontrivial = missing.len() >= 2;
+            if missing.len() >= 2 {
+                ctx.hit("probe.net_batch.two_failing_links");
+            }
+        }
         Case::HistoryRepeat { inner, before, seed, .. } => {
             ctx.class.push(format!("thr:history:{}", inner.world_name()));
             ctx.layer = "history-repeat";
@@ -425,6 +511,33 @@ pub fn execute(case: &Case, ctx: &mut Ctx) {
     }
 }
 
+fn net_batch_network(n_links: usize, missing: &[usize], tt: altrios_core::track::TrainType) -> altrios_core::track::Network {
+    use altrios_core::track::*;
+    use altrios_core::uc;
+    let mut v = vec![Link::default()];
+    for i in 1..=n_links {
+        let len = 100.0 + (i % 7) as f64 * 50.0;
+        let mk = |f: f64| SpeedSet { speed_limits: vec![SpeedLimit { offset_start: 0.0 * uc::M, offset_end: len * uc::M, speed: (10.0 + (i % 5) as f64) * f * uc::MPS }], speed_params: vec![], is_head_end: false };
+        let mut m = std::collections::HashMap::new();
+        for (t, f) in [(TrainType::Freight, 1.0), (TrainType::Passenger, 2.0), (TrainType::Intermodal, 1.5)] {
+            if !(t == tt && missing.contains(&i)) {
+                m.insert(t, mk(f));
+            }
+        }
+        v.push(Link {
+            idx_curr: LinkIdx::new(i as u32),
+            idx_next: LinkIdx::new(if i < n_links { i as u32 + 1 } else { 0 }),
+            idx_prev: LinkIdx::new(i as u32 - 1),
+            length: len * uc::M,
+            elevs: vec![Elev { offset: 0.0 * uc::M, elev: 0.0 * uc::M }, Elev { offset: len * uc::M, elev: 0.0 * uc::M }],
+            speed_sets: m,
+            speed_set: None,
+            ..Default::default()
+        });
+    }
+    Network(v)
+}
+
 pub fn shrink(case: &Case) -> Vec<Case> {
     let mut out = vec![];
     match case {
@@ -473,6 +586,22 @@ pub fn shrink(case: &Case) -> Vec<Case> {
             }
             for c in cases::shrink(inner, &dummy) {
                 out.push(Case::PoolRepeat { inner: Box::new(c), threads: threads.clone(), seed: *seed, hash_seed: *hash_seed });
+            }
+        }
+        Case::NetBatch { n_links, missing, type_bits, threads, hash_seed } => {
+            if threads.len() > 1 {
+                for k in 0..threads.len() {
+                    let mut t = threads.clone();
+                    t.remove(k);
+                    out.push(Case::NetBatch { n_links: *n_links, missing: missing.clone(), type_bits: *type_bits, threads: t, hash_seed: *hash_seed });
+                }
+            }
+            if missing.len() > 2 {
+                for k in 0..missing.len() {
+                    let mut m = missing.clone();
+                    m.remove(k);
+                    out.push(Case::NetBatch { n_links: *n_links, missing: m, type_bits: *type_bits, threads: threads.clone(), hash_seed: *hash_seed });
+                }
             }
         }
         Case::Rayon { sims, threads, hash_seed } => {
